@@ -17,7 +17,7 @@ RULE = ('enum: every boolean array of length 1..L (L=12 quick, 16 thorough) x ev
         'run kept iff len>=k, idempotent). Non-trivial: the array holds a run >= k and a run < k, or a run '
         'touching an edge that is shorter than k. Distinct = distinct (array, k).')
 REGISTER = True
-TECHNIQUE = 'exhaustive enumeration of all boolean arrays up to a length bound x all k, plus Hypothesis-generated long arrays, against a groupby reference model and direct run predicates'
+TECHNIQUE = 'exhaustive enumeration of all boolean arrays up to a length bound x all k, plus Hypothesis-generated long arrays, against a groupby reference model and direct run predicates; values passed in four memory layouts; arrays returned by earlier calls re-checked after later calls; atheris/libFuzzer part in the thorough tier'
 LEVEL_TEXT = 'Exhaustive for every array of length <= 12 (quick) / <= 16 (thorough) and every min_n_cycles 0..len+1; random structured search beyond (length <= 400, k <= 50). Complete below the bound, sampling above it.'
 ASSUMPTIONS = ['the input is handed over as a fresh copy (the function works in place; in-place-ness is C15 territory)',
                '1-D numpy bool arrays only (the documented input type), in C-contiguous, reversed-view, strided-view and table-column layouts']
